@@ -98,6 +98,14 @@ type Link struct {
 	mu      sync.Mutex
 	held    []*HeldWrite
 	heldSeq int
+	// inflight[dir] holds envelopes whose Write has returned but whose
+	// delivery the scheduler has not released yet (FIFO per direction).
+	inflight [2][]flight
+}
+
+type flight struct {
+	orig *goat.Rpc // as written (for the tap)
+	out  *goat.Rpc // as delivered
 }
 
 // End is one side of a Link and implements goat.RpcReadWriter.
@@ -121,6 +129,9 @@ type End struct {
 	writeErr    error
 	// hold decides which writes park at the gate.
 	hold func(*goat.Rpc) bool
+	// delay decides which writes return at once but are delivered only when
+	// the scheduler releases them (per-direction FIFO order is preserved).
+	delay func(*goat.Rpc) bool
 	// IgnoreWriteCtx makes Write succeed even if ctx is already done.
 	IgnoreWriteCtx bool
 }
@@ -245,16 +256,73 @@ func (e *End) Write(ctx context.Context, rpc *goat.Rpc) error {
 			return fmt.Errorf("verif transport: unmarshal: %w", err)
 		}
 	}
+	e.mu.Lock()
+	delay := e.delay
+	e.mu.Unlock()
+	l := e.link
+	l.mu.Lock()
+	if (delay != nil && delay(rpc)) || len(l.inflight[e.dir]) > 0 {
+		l.inflight[e.dir] = append(l.inflight[e.dir], flight{orig: proto.Clone(rpc).(*goat.Rpc), out: out})
+		l.mu.Unlock()
+		return nil
+	}
+	e.deliver(rpc, out)
+	l.mu.Unlock()
+	return nil
+}
+
+// deliver queues out for the peer's Read and records it on the tap (call with link.mu held).
+func (e *End) deliver(orig, out *goat.Rpc) {
 	p := e.peer
 	p.mu.Lock()
 	// tap under the receiver lock so tap order == delivery order
 	if e.link.Tap != nil {
-		e.link.Tap.add(e.link.Name, e.dir, rpc)
+		e.link.Tap.add(e.link.Name, e.dir, orig)
 	}
 	p.inbox = append(p.inbox, out)
 	p.mu.Unlock()
 	p.wake()
-	return nil
+}
+
+// Delay installs the delayed-delivery predicate (nil removes it).
+func (e *End) Delay(pred func(*goat.Rpc) bool) {
+	e.mu.Lock()
+	e.delay = pred
+	e.mu.Unlock()
+}
+
+// InFlight returns how many envelopes written on end `dir` await release.
+func (l *Link) InFlight(dir int) int {
+	l.mu.Lock()
+	defer l.mu.Unlock()
+	return len(l.inflight[dir])
+}
+
+// PeekFlight returns the oldest undelivered envelope of a direction (nil if none).
+func (l *Link) PeekFlight(dir int) *goat.Rpc {
+	l.mu.Lock()
+	defer l.mu.Unlock()
+	if len(l.inflight[dir]) == 0 {
+		return nil
+	}
+	return l.inflight[dir][0].orig
+}
+
+// ReleaseNext delivers the oldest delayed envelope of a direction.
+func (l *Link) ReleaseNext(dir int) bool {
+	l.mu.Lock()
+	defer l.mu.Unlock()
+	if len(l.inflight[dir]) == 0 {
+		return false
+	}
+	f := l.inflight[dir][0]
+	l.inflight[dir] = l.inflight[dir][1:]
+	end := l.A
+	if dir == BtoA {
+		end = l.B
+	}
+	end.deliver(f.orig, f.out)
+	return true
 }
 
 // Inject queues an envelope for this end's Read as if the peer had written it
@@ -336,10 +404,21 @@ func (l *Link) HoldAll() {
 	l.B.Hold(all)
 }
 
-// ReleaseAll removes the gates and releases everything parked.
+// DelayAll delays every write on both ends.
+func (l *Link) DelayAll() {
+	all := func(*goat.Rpc) bool { return true }
+	l.A.Delay(all)
+	l.B.Delay(all)
+}
+
+// ReleaseAll removes the gates and releases everything parked or in flight.
 func (l *Link) ReleaseAll() {
 	l.A.Hold(nil)
 	l.B.Hold(nil)
+	l.A.Delay(nil)
+	l.B.Delay(nil)
+	for l.ReleaseNext(AtoB) || l.ReleaseNext(BtoA) {
+	}
 	for _, h := range l.Held() {
 		h.Release()
 	}
